@@ -3,7 +3,7 @@
 From Coq Require Import String List NArith Bool.
 From Coq Require Import Lia.
 From BFG Require Import Base.Chars Path.PathAlg Path.PathAlgProofs Path.PathAlgMk Path.PathAlgRt Path.PathAlgNested
-                        Path.PathAlgWf Path.PathAlgOrder.
+                        Path.PathAlgWf Path.PathAlgOrder Path.PathAlgTrees.
 Import ListNotations.
 
 (* Whatever string, root (plain or a base path) and flags the constructor accepts, the stored components
@@ -142,7 +142,41 @@ Proof.
 Qed.
 Print Assumptions C12_commonprefix_rootdir_refuted.
 
+(* uniquetrees, for ALL inputs, in terms of the sort keys (root value, split) the implementation compares:
+   the result is a subset of the input, the key of every input extends the key of some result, and no two results
+   have comparable keys (sortedness argument: whatever lies below a kept path follows it immediately) *)
+Theorem C12_uniquetrees_keys : forall ps,
+  incl (uniquetrees ps) ps /\
+  (forall p, In p ps -> exists u, In u (uniquetrees ps) /\ kprefix (key_of u) (key_of p)) /\
+  ForallOrdPairs (fun u v => ischild (key_of u) (key_of v) = false) (uniquetrees ps).
+Proof. exact uniquetrees_keys. Qed.
+Print Assumptions C12_uniquetrees_keys.
+
+(* on well-formed paths (any roots, absolute included, but not the file-system root itself) whose roots have distinct
+   values the keys mean what they should: result is a subset of the input, every input lies below or equals some
+   result (same root, component prefix), no result lies below or equals another result (antichain, no duplicates) *)
+Theorem C12_uniquetrees : forall ps,
+  (forall p, In p ps -> wfp p /\ not_fsroot p) ->
+  (forall p q, In p ps -> In q ps -> root_value (p_root p) = root_value (p_root q) -> p_root p = p_root q) ->
+  incl (uniquetrees ps) ps /\
+  (forall p, In p ps -> exists u, In u (uniquetrees ps) /\ under u p) /\
+  ForallOrdPairs (fun u v => ~ under u v /\ ~ under v u) (uniquetrees ps).
+Proof. exact uniquetrees_spec. Qed.
+Print Assumptions C12_uniquetrees.
+
+(* the second guard is needed as well: the file-system root is not recognised as an ancestor *)
+Theorem C12_uniquetrees_fsroot_refuted : exists a b,
+  mk (STR "/") (RRoot Absolute) None None = Some a /\ mk (STR "/a") (RRoot Absolute) None None = Some b /\
+  uniquetrees [a; b] = [a; b].
+Proof. eexists. eexists. vm_compute. repeat split. Qed.
+Print Assumptions C12_uniquetrees_fsroot_refuted.
+
 (* non-vacuity *)
+Example ex_uniquetrees : exists a b c d,
+  mk (STR "x/foo/a") (RRoot Srcdir) None None = Some a /\ mk (STR "x/foo.c") (RRoot Srcdir) None None = Some b /\
+  mk (STR "x/foo") (RRoot Srcdir) None None = Some c /\ mk (STR "x/foo") (RRoot Builddir) None None = Some d /\
+  uniquetrees [a; b; c; d; c] = [c; b; d].
+Proof. do 4 eexists. vm_compute. repeat split. Qed.
 Example ex_commonprefix : exists a b c r,
   mk (STR "x/foo/a") (RRoot Srcdir) None None = Some a /\ mk (STR "x/foo.c") (RRoot Srcdir) None None = Some b /\
   mk (STR "x/foo") (RRoot Srcdir) None None = Some c /\
